@@ -4,7 +4,15 @@ package lib
 // that a disagreement replays exactly.
 type RNG struct{ s uint64 }
 
-func NewRNG(seed int64) *RNG { return &RNG{s: uint64(seed)*0x9E3779B97F4A7C15 + 0x1234567} }
+func NewRNG(seed int64) *RNG {
+	// mix the seed through the splitmix finaliser so that consecutive seeds give unrelated
+	// streams (a plain multiple of the increment would make seed k+1 the stream of seed k
+	// shifted by one draw)
+	z := uint64(seed) + 0x632BE59BD9B4E019
+	z = (z ^ (z >> 30)) * 0xBF58476D1CE4E5B9
+	z = (z ^ (z >> 27)) * 0x94D049BB133111EB
+	return &RNG{s: z ^ (z >> 31)}
+}
 
 func (r *RNG) Uint64() uint64 {
 	r.s += 0x9E3779B97F4A7C15
